@@ -1,5 +1,7 @@
 #include "c04.contracts.h"
 H3Index h3v_w, h3v_w2;
+int64_t h3v_g;
+H3Index h3v_v;
 
 void h_isPentagon(void) {
     H3Index h = nondet_u64();
@@ -46,14 +48,51 @@ void h_iterStepChild(void) {
     iterStepChild(&it);
     __CPROVER_assert(0, "canary iterStepChild");
 }
-/* per (parentRes, childRes) pair instance: resolution fields are constants */
-#ifdef PR
-void h_iterStepChild_pair(void) {
+/* composition: iterStepChild is called BY its bits-contract (enforced on the real code elsewhere); the rank
+ * function is an uninterpreted symbol here (-DH3V_ABSTRACT_POSN) about which only the rank lemma, instantiated at
+ * the old iterate, is assumed (lemma.rank.* jobs); the full contract's postcondition is asserted. */
+void h_iterStepChild_compose(void) {
     IterCellsChildren it;
-    it.h = S_SETRES(nondet_u64(), CR);
-    it._parentRes = PR;
-    it._skipDigit = nondet_int();
+    it.h = nondet_u64(); it._parentRes = nondet_int(); it._skipDigit = nondet_int();
+    __CPROVER_assume(sf_iter_wf(it.h, it._parentRes, it._skipDigit));
+    IterCellsChildren old = it;
+    if (old.h != 0) {
+        s_u64 y = S_NORM(old.h);
+        int n = S_RES(old.h) - old._parentRes;
+        int pent = S_ANC_IS_PENT(old.h, old._parentRes);
+        if (n < 15) y &= ((((s_u64)1) << (3 * n)) - 1);
+        __CPROVER_assert(n >= 0 && n <= 15 && sf_legaln(y, n, pent), "lemma instance is legal");
+        __CPROVER_assume(sf_posn(y, n, pent) >= 0 && sf_posn(y, n, pent) < sf_countn(n, pent));
+        s_u64 ny = sf_nextn(y, n, pent);
+        if (ny != S_NONE) __CPROVER_assume(sf_posn(ny, n, pent) == sf_posn(y, n, pent) + 1 &&
+                                           sf_posn(ny, n, pent) < sf_countn(n, pent));   /* (c), and (a) at next(y) */
+        else __CPROVER_assume(sf_posn(y, n, pent) == sf_countn(n, pent) - 1);            /* (d) */
+    }
     iterStepChild(&it);
-    __CPROVER_assert(0, "canary iterStepChild pair");
+    __CPROVER_assert(ITERSTEP_ENS_FULL(old.h, old._parentRes, it.h, it._parentRes, it._skipDigit),
+                     "full iterStepChild contract follows from the bits contract and the rank lemma");
+    __CPROVER_assert(0, "canary iterStepChild compose");
+}
+
+void h_cellToChildren(void) {
+    H3Index h = nondet_u64();
+    int childRes = nondet_int();
+    H3Index *children;
+    h3v_g = nondet_i64();
+    h3v_v = nondet_u64();
+    H3Error e = cellToChildren(h, childRes, children);
+    __CPROVER_assert(0, "canary cellToChildren");
+}
+
+#ifdef PR
+/* one complete proof per (parentRes, childRes) pair; the 136 pairs are the whole domain of valid arguments */
+void h_cellToChildren_pair(void) {
+    H3Index h = S_SETRES(nondet_u64(), PR);
+    int childRes = CR;
+    H3Index *children;
+    h3v_g = nondet_i64();
+    h3v_v = nondet_u64();
+    H3Error e = cellToChildren(h, childRes, children);
+    __CPROVER_assert(0, "canary cellToChildren pair");
 }
 #endif
